@@ -1,6 +1,7 @@
 (* C12/Props.v — property theorems only: each is closed by [exact] of a lemma proved in the
    proof files and followed by Print Assumptions. *)
 From Verif Require Import C12.Proofs.
+From Verif Require Import C12.TimeExact C12.TimeLine C12.HHWProofs C12.Run.
 From VerifGen Require Import Consts.
 From Coq Require Import Permutation Lia.
 Open Scope N_scope.
@@ -182,7 +183,110 @@ Proof.
 Qed.
 Print Assumptions print_parse_roundtrip_partial.
 
+(* ---- timestamp_exact_or_rejected: the timestamp at the requested precision, with SafeCalcTime /
+   safeSignedMult modelled on wrapping int64 (product taken mod 2^64, then the divide-back test
+   and CheckTime).  Spec.spec_ts_verdict computes text_value * unit in Z (nothing wraps): Some ns
+   when that lies in [MinNanoTime, MaxNanoTime], None otherwise (also for text that is not a
+   decimal integer).
+   (1) for EVERY token ts (no whitespace/quote/backslash) and every precision string the request
+       "m v=1 <ts>" yields exactly one point at exactly that instant, or exactly one error; *)
+Theorem timestamp_exact_or_rejected :
+  forall (parse_float : bytes -> option N) (uint_support : bool) (ts : bytes) (default_ns : Z) (prec : bytes),
+  ts_token ts = true ->
+  parse_points parse_float uint_support (ts_line ts) default_ns prec =
+  match spec_ts_verdict ts prec with
+  | Some ns => Ok [LPoint (mk_point [109] [118; 61; 49] (tm_of_unix_nano ns))]
+  | None => Ok [LErr]
+  end.
+Proof. exact ts_line_parse_points. Qed.
+Print Assumptions timestamp_exact_or_rejected.
+
+(* (2) for EVERY line: if parsePoint accepts it and scanTime had returned the non-empty token ts,
+       the point carries exactly the instant ts denotes, and that instant is in range — hence a
+       token whose exact product is out of range (or wraps into the range) is never accepted; *)
+Theorem timestamp_exact_or_rejected_any_line :
+  forall (parse_float : bytes -> option N) (uint_support : bool) (buf : bytes) (default_ns : Z) (prec : bytes)
+         (pos : nat) (key : bytes) (pos2 : nat) (fields : bytes) (pos3 : nat) (ts : bytes) (p : point),
+  scan_key buf 0 = Ok (pos, key) ->
+  scan_fields parse_float uint_support buf pos = Ok (pos2, fields) ->
+  scan_time buf pos2 = Ok (pos3, ts) -> ts <> [] ->
+  parse_point parse_float uint_support buf default_ns prec = Ok p ->
+  spec_ts_verdict ts prec = Some (tm_unix_nano (p_time p)) /\
+  (spec_min_nano_time <= tm_unix_nano (p_time p) <= spec_max_nano_time)%Z.
+Proof. exact parse_point_timestamp. Qed.
+Print Assumptions timestamp_exact_or_rejected_any_line.
+
+(* (3) on the token itself (every text scanTime lets through: optional '-' then digits, of any
+       length): strconv.ParseInt + SafeCalcTime give the exact instant or an error. *)
+Theorem timestamp_token_exact :
+  forall (s prec : bytes), time_shape s = true ->
+  match time_of_text s prec with
+  | Ok t => spec_ts_verdict s prec = Some (tm_unix_nano t) /\
+  (spec_min_nano_time <= tm_unix_nano t <= spec_max_nano_time)%Z
+  | Err _ => spec_ts_verdict s prec = None
+  | Crash => False
+  end.
+Proof. exact time_of_text_sound. Qed.
+Print Assumptions timestamp_token_exact.
+
+(* link to the executable spec of the CTime cases: the model's own result for "m v=1 <ts>", read
+   as an observation, passes Run.ts_obs_ok for every token (given ParseFloat("1") = 1.0) *)
+Theorem timestamp_model_meets_spec :
+  forall (parse_float : bytes -> option N) (ts : bytes) (default_ns : Z) (prec : bytes),
+  parse_float [49] = Some float_one_bits -> ts_token ts = true ->
+  ts_obs_ok ts prec (model_pobs parse_float (parse_points parse_float false (ts_line ts) default_ns prec)) = true.
+Proof. exact ts_line_model_meets_spec. Qed.
+Print Assumptions timestamp_model_meets_spec.
+
+(* ---- hinted_writes_exactly_once: concurrent NodeProcessor.WriteShard calls modelled as one
+   marshalWrite block per call, appended in some order.  Whenever the queue holds, in ANY order,
+   the blocks of the acknowledged batches plus those of some unacknowledged ones, every block
+   decodes (unmarshalWrite then NewPointFromBytes) and the decoded batches are the acknowledged
+   ones, each exactly once (Run.hw_spec_ok); and the model agrees with itself (Run.hw_agree). *)
+Theorem hinted_writes_exactly_once :
+  forall (shard : N) (bs : list (list (bytes * bytes * Z) * bool)),
+  shard < two64 -> Forall (fun b => batch_ok (hw_batch b)) bs ->
+  forall (blocks : list bytes) (extra rest : list (list point)),
+  Permutation blocks (map (marshal_write shard) (hw_acked bs) ++ map (marshal_write shard) extra) ->
+  Permutation (hw_unacked bs) (extra ++ rest) ->
+  hw_spec_ok shard bs blocks true false = true /\
+  (forallb hw_small (map hw_batch bs) = true -> hw_agree shard bs blocks true false = true).
+Proof.
+  intros shard bs Hs Hok blocks extra rest Hq Hu. split;
+    [exact (hhw_model_meets_spec shard bs Hs Hok blocks extra rest Hq Hu)|
+     exact (hhw_model_agrees shard bs blocks extra rest Hq Hu)].
+Qed.
+Print Assumptions hinted_writes_exactly_once.
+
 (* ---- non-vacuity ---- *)
+(* "-9223372036854776" at precision u: the exact product -9223372036854776000 is below MinNanoTime
+   (its int64 wrap, 9223372036854775616, would be in range): rejected; one more is accepted *)
+Example timestamp_nonvacuous :
+  ts_token [45;57;50;50;51;51;55;50;48;51;54;56;53;52;55;55;54] = true /\
+  spec_ts_verdict [45;57;50;50;51;51;55;50;48;51;54;56;53;52;55;55;54] [117] = None /\
+  zwrap64 (-9223372036854776 * 1000)%Z = 9223372036854775616%Z /\
+  parse_points (fun _ => None) false (ts_line [45;57;50;50;51;51;55;50;48;51;54;56;53;52;55;55;54]) 0%Z [117] = Ok [LErr] /\
+  spec_ts_verdict [45;57;50;50;51;51;55;50;48;51;54;56;53;52;55;55;53] [117] = Some (-9223372036854775000)%Z /\
+  spec_ts_verdict [53;49;50;52;48;57;54] [104] = None /\        (* 5124096 h: wraps to a small positive value *)
+  spec_ts_verdict [48;48;55] [115] = Some 7000000000%Z /\ spec_ts_verdict [43;49] [110] = None.
+Proof. vm_compute. repeat split; reflexivity. Qed.
+
+(* the hypotheses of timestamp_exact_or_rejected_any_line hold of "cpu,b=2 v=1i 5" *)
+Example timestamp_any_line_nonvacuous :
+  let buf := [99;112;117;44;98;61;50;32;118;61;49;105;32;53] in
+  scan_key buf 0 = Ok (7%nat, [99;112;117;44;98;61;50]) /\
+  scan_fields (fun _ => None) false buf 7 = Ok (12%nat, [118;61;49;105]) /\
+  scan_time buf 12 = Ok (14%nat, [53]).
+Proof. vm_compute. repeat split; reflexivity. Qed.
+
+(* two batches, queue order reversed: the premises of hinted_writes_exactly_once hold *)
+Example hinted_writes_nonvacuous :
+  let b1 := ([([97], [110;61;49;105], 5%Z)], true) in
+  let b2 := ([([98], [110;61;50;105], 6%Z)], true) in
+  hw_spec_ok 7 [b1; b2] [marshal_write 7 (hw_batch b2); marshal_write 7 (hw_batch b1)] true false = true /\
+  hw_spec_ok 7 [b1; b2] [marshal_write 7 (hw_batch b1); marshal_write 7 (hw_batch b1)] true false = false.
+Proof. vm_compute. split; reflexivity. Qed.
+
 Example escape_nonvacuous :
   escape_tag [97; 44; 92; 32; 61] = [97; 92; 44; 92; 92; 32; 92; 61] /\
   unescape_tag [97; 92; 44; 92; 92; 32; 92; 61] = [97; 44; 92; 32; 61].
